@@ -18,6 +18,16 @@ pub struct Case {
 pub const LATTICE: [f64; 11] = [f64::NEG_INFINITY, -2.0, -1.0, -0.0, 0.0, 1.0, 2.0, 3.0, f64::INFINITY, f64::NAN, NEG_NAN];
 pub const NEG_NAN: f64 = f64::from_bits(0xFFF8_0000_0000_0000);
 
+fn getters_method(item: &DataItem) -> [f64; 5] {
+    [item.open(), item.high(), item.low(), item.close(), item.volume()]
+}
+fn getters_trait(item: &DataItem) -> [f64; 5] {
+    fn g<T: Open + High + Low + Close + Volume>(t: &T) -> [f64; 5] {
+        [Open::open(t), High::high(t), Low::low(t), Close::close(t), Volume::volume(t)]
+    }
+    g(item)
+}
+
 fn verdict(last: &[Option<f64>; 5]) -> Result<(), TaError> {
     if last.iter().any(|v| v.is_none()) {
         return Err(TaError::DataItemIncomplete);
@@ -53,18 +63,23 @@ pub fn check(c: &Case, ctx: &mut Ctx) -> Result<(), Failure> {
     match (&want, &got) {
         (Err(e), Err(g)) if e == g => {}
         (Ok(()), Ok(item)) => {
-            let vals = [item.open(), item.high(), item.low(), item.close(), item.volume()];
-            for i in 0..5 {
-                if vals[i].to_bits() != last[i].unwrap().to_bits() {
-                    ctx.fail(
-                        format!("C16:getter_mismatch:{}", ["open", "high", "low", "close", "volume"][i]),
-                        format!("{}: getter {} returns {:e}, last value set was {:e}", show(), ["open", "high", "low", "close", "volume"][i], vals[i], last[i].unwrap()),
-                    )?;
+            // both ways a caller reaches the getters: method syntax (which would pick an inherent method of the same
+            // name, should one exist) and through the price traits, as every generic consumer does
+            for (how, vals) in [("method", getters_method(item)), ("trait", getters_trait(item))] {
+                for i in 0..5 {
+                    if vals[i].to_bits() != last[i].unwrap().to_bits() {
+                        ctx.fail(
+                            format!("C16:getter_mismatch:{}", ["open", "high", "low", "close", "volume"][i]),
+                            format!("{}: getter {} ({} call) returns {:e}, last value set was {:e}", show(), ["open", "high", "low", "close", "volume"][i], how, vals[i], last[i].unwrap()),
+                        )?;
+                    }
                 }
             }
             let cl = item.clone();
-            if !(cl == *item) {
-                ctx.fail("C16:clone_not_equal".into(), format!("{}: clone does not compare equal", show()))?;
+            // "a clone compares equal": through ==, through != and element-wise inside containers
+            #[allow(clippy::nonminimal_bool)]
+            if !(cl == *item) || cl != *item || [cl.clone()] != [item.clone()] || vec![cl.clone(), cl.clone()] != vec![item.clone(), item.clone()] || (cl.clone(), 1u8) != (item.clone(), 1u8) {
+                ctx.fail("C16:clone_not_equal".into(), format!("{}: clone does not compare equal (==, != or container comparison)", show()))?;
             }
         }
         (Err(TaError::DataItemIncomplete), _) => ctx.fail("C16:incomplete_not_reported".into(), format!("{}: expected Err(DataItemIncomplete), got {:?}", show(), got))?,
@@ -127,10 +142,11 @@ fn judge(last: &[Option<f64>; 5], got: Result<DataItem, TaError>, what: &str, ct
     match (&want, &got) {
         (Err(e), Err(g)) if e == g => Ok(()),
         (Ok(()), Ok(item)) => {
-            let vals = [item.open(), item.high(), item.low(), item.close(), item.volume()];
-            for i in 0..5 {
-                if vals[i].to_bits() != last[i].unwrap().to_bits() {
-                    ctx.fail(format!("C16:getter_mismatch:{}", ["open", "high", "low", "close", "volume"][i]), format!("{}: getter returns {:e}, last value set on this builder was {:e}", what, vals[i], last[i].unwrap()))?;
+            for vals in [getters_method(item), getters_trait(item)] {
+                for i in 0..5 {
+                    if vals[i].to_bits() != last[i].unwrap().to_bits() {
+                        ctx.fail(format!("C16:getter_mismatch:{}", ["open", "high", "low", "close", "volume"][i]), format!("{}: getter returns {:e}, last value set on this builder was {:e}", what, vals[i], last[i].unwrap()))?;
+                    }
                 }
             }
             Ok(())
@@ -518,12 +534,12 @@ pub fn run(g: &mut Global) {
     const NB: [f64; 5] = [1.0, 100.1, 1e-300, 1e300, 6.02e23];
     g.exhaustive(
         "one_ulp_neighbours",
-        5 * 81 * 5 * 6,
+        5 * 81 * 10 * 6,
         &|i| {
             let ord = (i % 6) as usize;
             let r = i / 6;
-            let vi = (r % 5) as usize;
-            let r = r / 5;
+            let vi = (r % 10) as usize;
+            let r = r / 10;
             let d = digits(r % 81, 3, 4);
             let b = NB[(r / 81) as usize % 5];
             let nb = |j: usize| match j {
@@ -531,7 +547,9 @@ pub fn run(g: &mut Global) {
                 1 => b,
                 _ => f64::from_bits(b.to_bits() + 1),
             };
-            let vol = [0.0, -0.0, 5e-324, -5e-324, 1.0][vi];
+            // volumes: zeros, the smallest subnormals, and values one or two ulps away from whole numbers (a setter that
+            // "cleans" a volume to the nearest whole unit within some epsilon)
+            let vol = [0.0, -0.0, 5e-324, -5e-324, 1.0, f64::from_bits(1.0f64.to_bits() + 1), f64::from_bits(3.0f64.to_bits() - 1), 3.0000000000000004, f64::from_bits(7500.0f64.to_bits() + 2), 0.1 * 3.0 * 25000.0][vi];
             let vals = [nb(d[0]), nb(d[1]), nb(d[2]), nb(d[3]), vol];
             let p = perm(ord * 17 % 120);
             Case { calls: p.iter().map(|&j| (j, X(vals[j as usize]))).collect() }
